@@ -274,6 +274,8 @@ def emit_unit(unit, outdir):
             uf_abstracted.append(ex.funcs[gcn]['qual'] + '::' + (ex.funcs[gcn]['name'] or ''))
         else:
             ex.contracts[gcn] = contract_text(ex.funcs[gcn], gpre, gpost)
+    if 'vf_sqrt' in ex.externals and 'vf_sqrt' not in unit.prelude:
+        prelude += 'double vf_sqrt(double x);   /* external: C library sqrt */\n'
     hname = 'vf_harness'
     text = ex.emit(extra_prelude=prelude, extra_tail=harness_text(f, cn, hname, not unit.no_canary))
     os.makedirs(outdir, exist_ok=True)
